@@ -901,5 +901,5 @@ Proof.
   intros h0 ls e n height rs sched Hwf Hfr Hrs prev s. split.
   - unfold s, prev. rewrite sys_run_length. reflexivity.
   - intros r Hin. apply (G_reader h0 ls e n Hwf Hfr s r); [|exact Hin].
-    unfold s, prev. apply G_run; [exact Hfr|]. apply G_init; assumption.
+    unfold s, prev. apply G_run; try assumption. apply G_init; assumption.
 Qed.
